@@ -3,6 +3,7 @@ package metrics
 import (
 	"bufio"
 	"context"
+	"encoding/json"
 	"fmt"
 	"io"
 	"io/ioutil"
@@ -43,6 +44,16 @@ func (opts CollectJSONOptions) validate() error {
 	return nil
 }
 
+// readJSONLine parses one line of the input, which has to be exactly one
+// JSON value: bson.UnmarshalExtJSON alone stops behind the first value of
+// the line and ignores whatever follows it (a second object, stray text).
+func readJSONLine(line []byte, doc *birch.Document) error {
+	if !json.Valid(line) {
+		return errors.New("line is not a single JSON value")
+	}
+	return bson.UnmarshalExtJSON(line, false, doc)
+}
+
 func (opts CollectJSONOptions) getSource() (<-chan *birch.Document, <-chan error) {
 	out := make(chan *birch.Document)
 	errs := make(chan error, 2)
@@ -55,7 +66,7 @@ func (opts CollectJSONOptions) getSource() (<-chan *birch.Document, <-chan error
 
 			for stream.Scan() {
 				doc := &birch.Document{}
-				err := bson.UnmarshalExtJSON(stream.Bytes(), false, doc)
+				err := readJSONLine(stream.Bytes(), doc)
 				if err != nil {
 					// a new error rather than a wrapped one: the cause of a
 					// parse error can be io.EOF (a line cut inside a literal),
@@ -83,7 +94,7 @@ func (opts CollectJSONOptions) getSource() (<-chan *birch.Document, <-chan error
 
 			for stream.Scan() {
 				doc := &birch.Document{}
-				err := bson.UnmarshalExtJSON(stream.Bytes(), false, doc)
+				err := readJSONLine(stream.Bytes(), doc)
 				if err != nil {
 					// a new error rather than a wrapped one: the cause of a
 					// parse error can be io.EOF (a line cut inside a literal),
@@ -115,7 +126,7 @@ func (opts CollectJSONOptions) getSource() (<-chan *birch.Document, <-chan error
 
 			for line := range tail.Lines() {
 				doc := birch.NewDocument()
-				err := bson.UnmarshalExtJSON([]byte(line.String()), false, doc)
+				err := readJSONLine([]byte(line.String()), doc)
 				if err != nil {
 					// a new error rather than a wrapped one: the cause of a
 					// parse error can be io.EOF (a line cut inside a literal),
